@@ -14,7 +14,9 @@
    octets must decode - with the SPECIFICATION's decoder, in the buffer - to the name
    (reading of DESIGN.md section 3), and the table must be sound.
 
-   kind "plain": Name.to_wire() without a file = Encode. *)
+   op "plain" (inside a "write" trace): Name.to_wire() without a file and
+   Name.to_digestable(origin) = Encode of the derelativized name, refused when that name
+   would exceed the limits (EncodedLength: "<= 255 octets or refused"). *)
 EXTENDS NameWire, VTrace
 
 CONSTANT Strict
@@ -103,7 +105,8 @@ TWrite ==
     /\ LET p == WLen(buf)
            s == IF e.compress THEN WriteName(e.n, e.origin, wtable, p) ELSE WriteName(e.n, e.origin, <<>>, PtrLimit + 1)
            f == FullName(e.n, e.origin)
-       IN  /\ C("WriteVerdict", (s[1] = "ok") <=> (e.res[1] = "ok"))
+       IN  /\ C("EncodedLength", e.res[1] = "ok" => Len(e.res[2]) <= MaxWire)
+           /\ C("WriteVerdict", (s[1] = "ok") <=> (e.res[1] = "ok"))
            /\ C("LibraryError", e.res[1] = "err" => e.res[3])
            /\ IF e.res[1] = "ok" /\ s[1] = "ok"
               THEN /\ buf' = [buf EXCEPT !.tail = @ \o e.res[2]]
@@ -119,7 +122,8 @@ TWrite ==
 TPlain ==
     /\ Tr.kind = "write" /\ e.op = "plain"
     /\ LET s == ToWire(e.n, e.origin, e.canon)
-       IN  /\ C("PlainWire", IF IsOk(s) THEN e.res[1] = "ok" /\ e.res[2] = s[2] ELSE e.res[1] = "err")
+       IN  /\ C("EncodedLength", e.res[1] = "ok" => Len(e.res[2]) <= MaxWire)       \* <= 255 octets or refused
+           /\ C("PlainWire", IF IsOk(s) THEN e.res[1] = "ok" /\ e.res[2] = s[2] ELSE e.res[1] = "err")
            /\ C("LibraryError", e.res[1] = "err" => e.res[3])
            /\ C("PlainDecodes", IsOk(s) /\ ~e.canon => Decode(Plain(e.res[2]), 0) = <<"ok", FullName(e.n, e.origin)[2], Len(e.res[2])>>)
     /\ Adv(1) /\ UNCHANGED <<dvars, wtable>>
